@@ -75,6 +75,11 @@ type MergeScenario struct {
 	HashBatch  uint32      `json:"hash_batch"`
 	Output     string      `json:"output"` // blocks | rows
 	Workers    int         `json:"workers"`
+	// KeyPerm: branch KeyPermB declares the same key columns in another order (permutation of the key
+	// positions); the merge must be refused or give the right result, never lose rows silently
+	SwapCols bool  `json:"swap_cols,omitempty"` // generator marker: branch 0 swaps two columns by name, row bytes unchanged
+	KeyPerm  []int `json:"key_perm,omitempty"`
+	KeyPermB int   `json:"key_perm_b,omitempty"`
 }
 
 func genMergeScenario(r *Rand, tier string) MergeScenario {
@@ -235,7 +240,42 @@ func genMergeScenario(r *Rand, tier string) MergeScenario {
 			sc.Conflicts = append(sc.Conflicts, mConflict{Kind: kind, Row: row, Col: c, A: 0, B: 1})
 		}
 	}
+	if sc.Synth == nil && len(pkIdx) > 0 && len(nonKey) >= 2 && nrows > 0 && nrows <= 12 && !sc.Identical &&
+		len(sc.ColAdds)+len(sc.ColRemoves)+len(sc.ColMoves)+len(sc.ColRenames)+len(sc.Cells)+len(sc.Removes)+len(sc.Conflicts) == 0 && r.Chance(0.5) {
+		// one branch swaps two columns by name but keeps every row's bytes: all its cells in
+		// those two columns changed, although a byte-wise comparison with the base sees nothing
+		_, _, brows := sc.baseTable()
+		brows = NormaliseCSV(cols, DedupeByKey(cols, pk, brows))
+		if len(brows) == nrows {
+			a, b2 := nonKey[0], nonKey[1]
+			if len(nonKey) > 2 && r.Chance(0.5) {
+				a, b2 = nonKey[len(nonKey)-2], nonKey[len(nonKey)-1]
+			}
+			sc.ColMoves = append(sc.ColMoves, mColOp{B: 0, Col: a, To: b2}, mColOp{B: 0, Col: b2, To: a})
+			for i, row := range brows {
+				if row[a] != row[b2] {
+					sc.Cells = append(sc.Cells, mCell{B: 0, Row: i, Col: a, Val: row[b2]}, mCell{B: 0, Row: i, Col: b2, Val: row[a]})
+				}
+			}
+			sc.SwapCols = true
+		}
+	}
 	sc.Order = r.Perm(sc.NBranch)
+	if len(pkIdx) >= 2 && r.Chance(0.1) {
+		for tries := 0; tries < 5; tries++ {
+			perm := r.Perm(len(pkIdx))
+			ident := true
+			for i, x := range perm {
+				if i != x {
+					ident = false
+				}
+			}
+			if !ident {
+				sc.KeyPerm, sc.KeyPermB = perm, r.Intn(sc.NBranch)
+				break
+			}
+		}
+	}
 	return sc
 }
 
@@ -838,6 +878,7 @@ func execC05(t *testing.T, raw json.RawMessage, res *Result) {
 		return
 	}
 	otherSums := make([][]byte, nb)
+	keyReordered := false
 	for i, b := range order {
 		bt := branches[b]
 		nr := NormaliseCSV(bt.cols, bt.rows)
@@ -845,7 +886,25 @@ func execC05(t *testing.T, raw json.RawMessage, res *Result) {
 			res.Skip("branch rows not CSV-representable")
 			return
 		}
-		otherSums[i], err = ingestPlain(t, st, bt.cols, pk, bt.rows)
+		bpk := pk
+		if len(sc.KeyPerm) > 0 && b == sc.KeyPermB {
+			if len(sc.KeyPerm) != len(pk) {
+				res.Invalid("key_perm")
+				return
+			}
+			seenP := map[int]bool{}
+			bpk = make([]string, len(pk))
+			for x, y := range sc.KeyPerm {
+				if y < 0 || y >= len(pk) || seenP[y] {
+					res.Invalid("key_perm")
+					return
+				}
+				seenP[y] = true
+				bpk[x] = pk[y]
+			}
+			keyReordered = !rowsEqual(bpk, pk)
+		}
+		otherSums[i], err = ingestPlain(t, st, bt.cols, bpk, bt.rows)
 		if err != nil {
 			res.Invalid("ingest branch: %v", err)
 			return
@@ -861,6 +920,13 @@ func execC05(t *testing.T, raw json.RawMessage, res *Result) {
 		return
 	}
 	if mErr != nil {
+		if keyReordered {
+			// a branch keyed by the same columns in another order identifies rows differently:
+			// refusing the merge is a right answer
+			res.probe("merge_refused_key_order", 1)
+			res.Nontrivial = true
+			return
+		}
 		res.Violate("merge-error", "merge failed: %v", mErr)
 		return
 	}
